@@ -46,6 +46,7 @@
 (*    a misspelling of _port_out_cache); Strict = FALSE is what the code      *)
 (*    does: the stale cache survives the reconnect (deviation StaleCache,     *)
 (*    recorded in `stale`).                                                   *)
+(*  - StrictHeal: deviation ForgottenLink, see LivenessAtPortUp below.         *)
 (*  - time is discrete (unit = 1/P s); an event falling on a timer instant    *)
 (*    happens after the timer (Tick is forced when tphase = P).               *)
 EXTENDS Naturals, Sequences, FiniteSets, TLC, Json
@@ -56,7 +57,8 @@ CONSTANTS Sw,        \* switch numbers, ordered like their datapath ids
           Links,     \* candidate links <<s1, p1, s2, p2>> with <<s1, p1>> < <<s2, p2>> (Link.uni)
           Mode,      \* "stable" | "unstable" | "randomized" (randomized also stands for nx: any forest)
           P, W,      \* timer period and waiting period (send_cycle_time / 4), in time units
-          Strict,    \* see above
+          Strict,    \* see above (deviation StaleCache)
+          StrictHeal,\* FALSE = the code: a link killed by a port-down is never revived by the port coming up (ForgottenLink)
           PortOps,   \* subset of {"add", "del", "down", "up"}
           OpPorts,   \* the <<switch, port>> pairs on which port events are explored
           Fresh,     \* {FALSE} or {FALSE, TRUE}: may a switch reconnect rebooted (default port config)?
@@ -70,17 +72,20 @@ NoCache == [has |-> FALSE, m |-> <<>>]
 Told(m) == [has |-> TRUE, m |-> m]
 
 VARIABLES conn, sports, down, swcfg, chan,          \* environment
+          ann,                                      \* discovery's adjacency: [f, r] = directions of links it has
+                                                    \* announced (LinkEvent added) and not withdrawn (removed);
+                                                    \* tracked for the links the component knows
           sws, age, cache, known, fwd, rev, tree,   \* the component
           tphase, calm, stale,                      \* clocks / deviation bookkeeping
           dpend,                                    \* session gone, ConnectionDown not yet handled by the component
           last, hist
-evars == <<conn, sports, down, swcfg, chan>>
+evars == <<conn, sports, down, swcfg, chan, ann>>
 cvars == <<sws, age, cache, known, fwd, rev, tree>>
-vars  == <<conn, sports, down, swcfg, chan, sws, age, cache, known, fwd, rev, tree, tphase, calm, stale, dpend,
+vars  == <<ann, conn, sports, down, swcfg, chan, sws, age, cache, known, fwd, rev, tree, tphase, calm, stale, dpend,
            last, hist>>
-view  == <<conn, sports, down, swcfg, chan, sws, age, cache, known, fwd, rev, tree, tphase, calm, stale, dpend>>
+view  == <<ann, conn, sports, down, swcfg, chan, sws, age, cache, known, fwd, rev, tree, tphase, calm, stale, dpend>>
 \* for the edge-cover export: calm and stale only feed the properties, no action reads them
-viewE == <<conn, sports, down, swcfg, chan, sws, age, cache, known, fwd, rev, tree, tphase, dpend>>
+viewE == <<ann, conn, sports, down, swcfg, chan, sws, age, cache, known, fwd, rev, tree, tphase, dpend>>
 
 ----------------------------------------------------------------------------
 (* links and graphs: switches are nodes, links are edges *)
@@ -152,7 +157,7 @@ Exp(sent, tr, err) == [sent |-> sent, tree |-> tr, err |-> err]
 Init ==
   /\ conn = {} /\ sports = InitPorts /\ down = [s \in Sw |-> {}]
   /\ swcfg = [s \in Sw |-> [p \in InitPorts[s] |-> 0]]
-  /\ chan = [s \in Sw |-> <<>>]
+  /\ chan = [s \in Sw |-> <<>>] /\ ann = [f |-> {}, r |-> {}]
   /\ sws = {} /\ age = [s \in Sw |-> <<>>] /\ cache = [s \in Sw |-> NoCache]
   /\ known = {} /\ fwd = {} /\ rev = {} /\ tree = {}
   /\ tphase = 0 /\ calm = 0 /\ stale = {} /\ dpend = {}
@@ -167,13 +172,24 @@ Recompute(cn, sp, ag, K, F, R, ca, chn, who, a, args, extraStale) ==
     /\ Log(a, args, Exp(r.sent, T, ""))
 
 ----------------------------------------------------------------------------
+\* DEVIATION StaleCache (Strict = FALSE is the code): _handle_ConnectionUp assigns `self._port_cache = None`, a
+\* name nothing reads; the intended `_port_out_cache` survives the reconnect, so a switch that lost its port
+\* configuration (reboot, or a batch lost with the old session) is not told again while the result is unchanged.
+CacheAtConnUp(s) == IF Strict THEN [cache EXCEPT ![s] = NoCache] ELSE cache
+\* DEVIATION ForgottenLink (StrictHeal = FALSE is the code): a PortStatus with the port down marks the link dead
+\* in both directions; nothing marks it alive again but a LinkEvent(added), which discovery raises only for a link
+\* that is not in its adjacency.  A port that comes back before discovery's link timeout therefore leaves the link
+\* dead for ever although discovery still vouches for it.  StrictHeal = TRUE: the port coming up restores the
+\* directions discovery has announced and not withdrawn.
+LivenessAtPortUp(ls) == IF StrictHeal THEN <<fwd \cup (ls \cap ann.f), rev \cup (ls \cap ann.r)>> ELSE <<fwd, rev>>
+
 ConnUp(s, fr) ==
   /\ tphase < P /\ dpend = {} /\ s \notin conn /\ fr \in Fresh
   /\ conn' = conn \cup {s} /\ sws' = sws \cup {s}
   /\ swcfg' = IF fr THEN [swcfg EXCEPT ![s] = [p \in sports[s] |-> 0]] ELSE swcfg
-  /\ UNCHANGED <<sports, down, known, fwd, rev, tphase, dpend>>
+  /\ UNCHANGED <<ann, sports, down, known, fwd, rev, tphase, dpend>>
   /\ calm' = 0
-  /\ LET ca == IF Strict THEN [cache EXCEPT ![s] = NoCache] ELSE cache        \* deviation StaleCache
+  /\ LET ca == CacheAtConnUp(s)
          ag == [age EXCEPT ![s] = Sync(s, sports, age)]                      \* Switch._handle_ConnectionUp
      IN Recompute(conn \cup {s}, sports, ag, known, fwd, rev, ca, chan, sws \cup {s},
                   "ConnUp", [s |-> s, fresh |-> fr], IF ca[s].has THEN {s} ELSE {})
@@ -185,14 +201,14 @@ Disconnect(s) ==
   /\ tphase < P /\ dpend = {} /\ s \in conn
   /\ conn' = conn \ {s} /\ dpend' = {s}
   /\ chan' = [chan EXCEPT ![s] = <<>>]
-  /\ UNCHANGED <<sports, down, swcfg, cvars, tphase, stale>>
+  /\ UNCHANGED <<ann, sports, down, swcfg, cvars, tphase, stale>>
   /\ calm' = 0
   /\ Log("Disconnect", [s |-> s], Exp({}, tree, ""))
 \* _handle_openflow_ConnectionDown: Switch._handle_ConnectionDown only touches Port.up; then SpanningForest._compute
 ConnDown(s) ==
   /\ s \in dpend
   /\ dpend' = {}
-  /\ UNCHANGED <<conn, sports, down, swcfg, sws, known, fwd, rev, tphase>>
+  /\ UNCHANGED <<ann, conn, sports, down, swcfg, sws, known, fwd, rev, tphase>>
   /\ calm' = 0
   /\ Recompute(conn, sports, age, known, fwd, rev, cache, chan, sws, "ConnDown", [s |-> s], {})
 
@@ -207,12 +223,15 @@ LinkEv(add, l, dir) ==
      THEN \* Topo.get_link: "Dynamic/hubbed/multi-access topology not supported" (a port already belongs to
           \* another link) -> RuntimeError; LinkData.__init__: both ends on one switch -> AssertionError.
           \* Nothing has been changed when they are raised.
-          /\ UNCHANGED <<age, cache, chan, known, fwd, rev, tree, stale>>
+          \* (discovery's adjacency is only tracked for links the component knows)
+          /\ UNCHANGED <<ann, age, cache, chan, known, fwd, rev, tree, stale>>
           /\ Log("LinkEv", args, Exp({}, tree,
                  IF \E e \in EndsOf(l) : LinkAt(e[1], e[2], known) # {} THEN "RuntimeError" ELSE "AssertionError"))
      ELSE LET F == IF dir = "uv" THEN (IF add THEN fwd \cup {l} ELSE fwd \ {l}) ELSE fwd
               R == IF dir = "vu" THEN (IF add THEN rev \cup {l} ELSE rev \ {l}) ELSE rev
           IN /\ known' = known \cup {l} /\ fwd' = F /\ rev' = R
+             /\ ann' = [f |-> IF dir = "uv" THEN (IF add THEN ann.f \cup {l} ELSE ann.f \ {l}) ELSE ann.f,
+                         r |-> IF dir = "vu" THEN (IF add THEN ann.r \cup {l} ELSE ann.r \ {l}) ELSE ann.r]
              /\ IF Liv(l, F, R) # Liv(l, fwd, rev)
                 THEN Recompute(conn, sports, age, known \cup {l}, F, R, cache, chan, sws, "LinkEv", args, {})
                 ELSE /\ UNCHANGED <<age, cache, chan, tree, stale>>
@@ -229,7 +248,7 @@ PortEv(s, p, k) ==
   /\ sports' = [sports EXCEPT ![s] = IF k = "add" THEN @ \cup {p} ELSE IF k = "del" THEN @ \ {p} ELSE @]
   /\ down'   = [down EXCEPT ![s] = IF k = "down" THEN @ \cup {p} ELSE IF k \in {"up", "del"} THEN @ \ {p} ELSE @]
   /\ swcfg'  = [swcfg EXCEPT ![s] = IF k = "add" THEN Ext(@, p, 0) ELSE IF k = "del" THEN Cut(@, p) ELSE @]
-  /\ UNCHANGED <<conn, sws, tphase, dpend>>
+  /\ UNCHANGED <<ann, conn, sws, tphase, dpend>>
   /\ calm' = 0
   /\ LET args == [s |-> s, p |-> p, k |-> k] IN
      IF s \notin conn
@@ -241,8 +260,8 @@ PortEv(s, p, k) ==
                                        ELSE IF k = "del" THEN @ ELSE [@ EXCEPT ![p] = 0]]
               isdown == k = "down" \/ (k = "del" /\ p \in down[s])           \* is_down(e.ofp.desc)
               ls == LinkAt(s, p, known)
-              F  == IF isdown THEN fwd \ ls ELSE fwd                          \* mark_dead(): both directions
-              R  == IF isdown THEN rev \ ls ELSE rev
+              F  == IF isdown THEN fwd \ ls ELSE IF k = "up" THEN LivenessAtPortUp(ls)[1] ELSE fwd   \* mark_dead():
+              R  == IF isdown THEN rev \ ls ELSE IF k = "up" THEN LivenessAtPortUp(ls)[2] ELSE rev   \* both directions
           IN /\ UNCHANGED known /\ fwd' = F /\ rev' = R
              /\ IF \E l \in ls : Liv(l, F, R) # Liv(l, fwd, rev)
                 THEN Recompute(conn, sp, ag, known, F, R, cache, chan, sws, "PortEv", args, {})
@@ -254,7 +273,7 @@ PortEv(s, p, k) ==
 Tick ==
   /\ tphase = P /\ dpend = {}
   /\ tphase' = 0
-  /\ UNCHANGED <<conn, sports, down, swcfg, sws, known, fwd, rev, tree, calm, dpend>>
+  /\ UNCHANGED <<ann, conn, sports, down, swcfg, sws, known, fwd, rev, tree, calm, dpend>>
   /\ LET ag == [s \in Sw |-> IF s \in sws /\ s \notin conn THEN <<>> ELSE age[s]]
          r  == React(conn, sports, ag, known, tree, cache, chan, sws)
      IN /\ age' = r.age /\ cache' = r.cache /\ chan' = r.chan /\ stale' = stale \ r.snd
@@ -267,7 +286,7 @@ Deliver(s) ==
   /\ tphase < P /\ dpend = {} /\ s \in conn /\ chan[s] # <<>>
   /\ swcfg' = [swcfg EXCEPT ![s] = ApplyAll(@, chan[s])]
   /\ chan' = [chan EXCEPT ![s] = <<>>]
-  /\ UNCHANGED <<conn, sports, down, cvars, tphase, calm, stale, dpend>>
+  /\ UNCHANGED <<ann, conn, sports, down, cvars, tphase, calm, stale, dpend>>
   /\ Log("Deliver", [s |-> s], [cfg |-> Pairs(ApplyAll(swcfg[s], chan[s]))])
 
 Advance ==
@@ -303,6 +322,7 @@ TypeOK ==
   /\ tree \subseteq known /\ fwd \subseteq known /\ rev \subseteq known /\ known \subseteq Links
   /\ tphase \in 0..P /\ calm \in 0..(W + P) /\ stale \subseteq Sw
   /\ dpend \subseteq sws \ conn /\ Cardinality(dpend) <= 1
+  /\ fwd \subseteq ann.f /\ rev \subseteq ann.r /\ ann.f \subseteq known /\ ann.r \subseteq known
   \* no port belongs to two links, no link has both ends on one switch
   /\ \A l \in known : ~SelfLoop(l) /\ \A e \in EndsOf(l) : LinkAt(e[1], e[2], known) = {l}
 
@@ -355,6 +375,16 @@ ExactBatches ==
             /\ (cache[s] # cache'[s] \/ (Strict /\ s \notin conn))
        /\ (cache'[s] # cache[s]) => Len(chan'[s]) = Len(chan[s]) + 1
      ]_vars
+
+\* a port that comes up again makes its link usable again as far as discovery still vouches for it
+\* (holds iff StrictHeal; the code violates it: deviation ForgottenLink)
+HealsOnPortUp ==
+  [][(last'.a = "PortEv" /\ last'.args.k = "up" /\ last'.args.s \in conn) =>
+       \A l \in LinkAt(last'.args.s, last'.args.p, known) :
+          (l \in ann.f => l \in fwd') /\ (l \in ann.r => l \in rev')]_vars
+\* links the component has given up although discovery vouches for them and no end port is down
+Forgotten == {l \in known : /\ (l \in ann.f /\ l \notin fwd) \/ (l \in ann.r /\ l \notin rev)
+                            /\ \A e \in EndsOf(l) : e[2] \in sports[e[1]] \ down[e[1]]}
 
 \* ---- export for the replay harness
 Bound   == Len(hist) <= D
